@@ -239,6 +239,36 @@ def evalpl(d, t):
     return Fr(0)
 
 
+def finite_cps(cps):
+    return all(math.isfinite(p[0]) and math.isfinite(p[1]) for d in cps for p in d)
+
+
+def finite_landscape(pl):
+    if is_exact(pl):
+        return finite_cps(cps_of(pl))
+    v = np.asarray(pl.values)
+    return v.dtype.kind == "f" and bool(np.all(np.isfinite(v)))
+
+
+def wf_depth_py(d):
+    """the class of depth lists the statement is about (mirror of the definition, not of the model's code):
+    non-empty, zero first/last ordinate, abscissae non-decreasing, a zero-width step only between equal points"""
+    if not d or d[0][1] != 0 or d[-1][1] != 0:
+        return False
+    if not all(math.isfinite(p[0]) and math.isfinite(p[1]) for p in d):
+        return False
+    return all(p[0] < q[0] or (p[0] == q[0] and p[1] == q[1]) for p, q in zip(d, d[1:]))
+
+
+def wf_landscape_py(pl):
+    if is_exact(pl):
+        cps = cps_of(pl)
+        return len(cps) > 0 and all(wf_depth_py(d) for d in cps)
+    v = np.asarray(pl.values)
+    return (v.dtype.kind == "f" and v.ndim == 2 and v.shape[0] >= 1 and v.shape[1] == pl.num_steps >= 1
+            and bool(np.all(np.isfinite(v))) and pl.start <= pl.stop)
+
+
 def frac_cps(cps):
     return [[(Fr(p[0]), Fr(p[1])) for p in d] for d in cps]
 
@@ -538,10 +568,20 @@ def gen_grid_history(ctx):
             which = r.choice([(1, 0, 0), (0, 1, 0), (0, 0, 1), (1, 1, 0), (0, 1, 1), (1, 0, 1), (1, 1, 1)])
             grid = (g1[0] if which[0] and g1[0] <= t else s, t, n)
             grid = (grid[0], g1[1] if which[1] and g1[1] >= grid[0] else t, g1[2] if which[2] else n)
+        spec = None
         if r.random() < 0.35 and grid[1] > grid[0]:
-            leaves.append(gen_gdgm_leaf(ctx, mode, e, hd, grid))
-        else:
-            leaves.append(gen_vals_leaf(ctx, mode, e, hd, grid, exact))
+            for _ in range(4):      # the constructor's 'Bad choice of grid' placeholder is not a landscape: draw again
+                cand = gen_gdgm_leaf(ctx, mode, e, hd, grid)
+                try:
+                    with np.errstate(all="ignore"):
+                        ok = np.asarray(build_leaf(cand).values).dtype.kind == "f"
+                except Exception:
+                    ok = False
+                if ok:
+                    spec = cand
+                    break
+                ctx.count("gen:grid_placeholder_redrawn")
+        leaves.append(spec or gen_vals_leaf(ctx, mode, e, hd, grid, exact))
     nops = r.randint(0, 12)
     ops = []
     nreg = nleaves
@@ -933,14 +973,24 @@ def check_laws(ctx, run):
             want_rej = (expected_rejection_exact if hist["cls"] == "exact" else expected_rejection_grid)(op, regs) \
                 if name in ("add", "sub", "mul", "rmul", "div") else None
             if want_rej is not None:
-                ok = out[0] == "err" and out[1].startswith("err:" + want_rej)
+                # the kind is part of the law only for well-formed operands (a malformed operand may be
+                # rejected for its own reason first; the exact kind is then the correspondence's business)
+                opnds = [regs[j] for j in (op[1:3] if name in ("add", "sub") else op[1:2])]
+                ok = out[0] == "err" and (out[1].startswith("err:" + want_rej) or not all(wf_landscape_py(x) for x in opnds))
                 ctx.test("rejections", ok)
                 if not ok:
                     fails.append({"op_index": i, "op": op, "law": "must be rejected with " + want_rej, "outcome": list(out)})
+            valid = name in ("add", "sub", "neg", "mul", "rmul", "div") and want_rej is None and \
+                all(wf_landscape_py(regs[j]) for j in (op[1:3] if name in ("add", "sub") else op[1:2]))
             try:
                 res = apply_op(regs, op)
-            except Exception:
+            except Exception as e:
+                if valid:
+                    ctx.test("valid_operands_accepted", False)
+                    fails.append({"op_index": i, "op": op, "law": "operation on well-formed operands must succeed", "outcome": errtag(e)})
                 continue
+            if valid:
+                ctx.test("valid_operands_accepted", True)
             if isinstance(res, list):
                 new = res
             else:
@@ -949,6 +999,11 @@ def check_laws(ctx, run):
                 continue
             if want_rej is not None:
                 pass
+            elif not all(finite_landscape(x) for x in new):
+                ctx.test("finite_results", False)
+                if all(finite_landscape(regs[j]) for j in range(len(regs))):
+                    fails.append({"op_index": i, "op": op, "law": "result of finite operands must be finite (got NaN/inf)",
+                                  "at": canon_reg(new[0]) if is_exact(new[0]) else "values"})
             elif hist["cls"] == "exact":
                 bad = pointwise_exact(op, regs_cps, cps_of(res), run.op_exact[i])
                 ctx.test("pointwise_exact", bad is None)
@@ -1020,6 +1075,8 @@ def process(ctx, runs):
         for out in run.outcomes:
             if out[0] == "ok" and len(out[1]) == 1 and not out[2]:
                 target = out[1][0]
+        if target is not None and not all(finite_landscape(p) for p in run.regs):
+            target = None
         if target is not None:
             tree = tree_of(run, target)
             if tree is not None:
@@ -1144,7 +1201,7 @@ def deep_search(ctx, run):
                 res = apply_op(regs, op)
             except Exception:
                 continue
-            if expected_rejection_exact(op, regs) is None:
+            if expected_rejection_exact(op, regs) is None and all(finite_landscape(p) for p in regs + [res]):
                 bad = pointwise_exact(op, [cps_of(p) for p in regs], cps_of(res), run.op_exact[i], cap=10 ** 9)
                 if bad:
                     ctx.violation("pointwise law fails on the real code at %r (found after a code/model disagreement)" % (bad,),
@@ -1197,9 +1254,9 @@ CORPUS = [
 def run(ctx):
     r = ctx.rng
     ctx.extra["anchored_digest"] = _digest()
-    n = ctx.n(170, 2600)
+    n = ctx.n(700, 9000)
     if ANCHOR_DIGEST is not None and ctx.extra["anchored_digest"] != ANCHOR_DIGEST and not ctx.thorough:
-        n = 800             # the anchored functions were rewritten: explore harder (DESIGN 3.2)
+        n = 2500            # the anchored functions were rewritten: explore harder (DESIGN 3.2)
         ctx.count("digest_changed")
     hists = list(CORPUS)
     for _ in range(n):
